@@ -206,6 +206,8 @@ type Client struct {
 	// Busy, when set, tells whether the server has been working since the previous call; a read
 	// watchdog that expires without a byte is re-armed while it says so (at most 6 periods).
 	Busy func() bool
+	// EOFLimit bounds what ExpectEOF collects before it gives up waiting for the close (default 1 MiB).
+	EOFLimit int
 }
 
 func Dial(addr string, local net.Addr, watchdog time.Duration) (*Client, error) {
@@ -338,7 +340,11 @@ func (c *Client) ExpectEOF() ([]byte, ReadStatus) {
 			c.logf("< expect-EOF: closed (%v) after %d stray bytes", err, len(stray))
 			return stray, Closed
 		}
-		if len(stray) > 1<<20 {
+		lim := c.EOFLimit
+		if lim <= 0 {
+			lim = 1 << 20
+		}
+		if len(stray) > lim {
 			return stray, Full
 		}
 	}
